@@ -163,6 +163,16 @@ def at_rule(F, rep, rid, exempt, enum_exempt=()):
             if key in exempt:
                 rep.exempt(rid, key, exempt[key])
                 continue
+            # a file-local helper that every caller merely forwards to (`return helper(args);`) inherits the exemption the callers' own
+            # element access had: the access is the same one, written once
+            from engines import delegate, subst_names
+            callers = [F.funcs[c] for c in F.callers.get(f.key, ()) if c in F.funcs]
+            dels = [(g, delegate(F, g)) for g in callers]
+            if callers and all(d is not None and d[0] is f for g, d in dels):
+                keys = ['%s|%s' % (g.short, subst_names('%s.at(%s)' % (rt, at), d[1])) for g, d in dels]
+                if all(k_ in exempt for k_ in keys):
+                    rep.exempt(rid, key, 'forwarded to by %s, whose element access it now holds: %s' % (', '.join(g.short for g in callers), exempt[keys[0]]))
+                    continue
             rc = ff(f).rendered_conds_at(n) or set()
             how = None
             # global enum-keyed table
